@@ -758,9 +758,9 @@ def _verbosity(ctx, col):
     owner, sfn = ctx.ct.require(sol, "set_verbosity")
     st = [n for n in ast.walk(sfn) if isinstance(n, ast.Dict)]
     oks = False
-    if len(st) == 1:
+    if st:  # one table, possibly mentioned more than once (membership test and lookup of a hoisted constant)
         try:
-            oks = ast.literal_eval(st[0]) == {v: k for k, v in LEVELS.items()}
+            oks = all(ast.literal_eval(d) == {v: k for k, v in LEVELS.items()} for d in st)
         except Exception:
             oks = False
     col.add("R20.9", "Solver.set_verbosity", owner.module.relpath, sfn.lineno, oks,
